@@ -44,7 +44,7 @@ _cfg = st.fixed_dictionaries({
 
 def _cases(max_elems):
     return st.fixed_dictionaries({
-        'spec': gx.tree_specs(max_elems=max_elems, max_depth=4, max_attrs=3, pi_targets=gx.PI_TARGETS_FN, misc_weight=4,
+        'spec': gx.tree_specs(max_elems=max_elems, max_depth=4, max_attrs=3, pi_targets=gx.PI_TARGETS_FN + ('a', 'b'), misc_weight=4,
                               elem_locals=('a', 'b')),
         'cfgs': st.lists(_cfg, min_size=3, max_size=3),
     })
